@@ -95,7 +95,10 @@ def body(c):
         fm = ex.submit(vlib.run_tlc, mmod, c.path("MC_GenValDoc.cfg"), workers=2, timeout=900, coverage=True, keep_lines=2000)
         # M (specification): laws of Validation.tla over a bounded family of documents -- two formulations of validity agree,
         # check-dropping deviation switches never add clauses, the overlap switches are opposites, the merge shortcut is sound
-        fl = ex.submit(vlib.run_tlc, "gql/MC_Validation.tla", "gql/MC_Validation.cfg", env={"SCHEMA": SCHEMA}, workers=2, timeout=900, keep_lines=200)
+        lcfg = c.path("MC_Validation.cfg")
+        with open(lcfg, "w") as f:
+            f.write("CONSTANT Full = %s\nINIT Init\nNEXT Next\nINVARIANT Law1\nINVARIANT Law2\nINVARIANT Law3\n" % ("FALSE" if c.quick else "TRUE"))
+        fl = ex.submit(vlib.run_tlc, "gql/MC_Validation.tla", lcfg, env={"SCHEMA": SCHEMA}, workers=2, timeout=900, keep_lines=200)
         fg = ex.submit(run_g1, c, confs)
         m, laws, (g, g1) = fm.result(), fl.result(), fg.result()
     if m.invariant_violated:
@@ -112,19 +115,22 @@ def body(c):
     c.add_tlc("M Gen_ValDoc", m)
     c.add_tlc("G1 Gen_ValDoc (%d configurations)" % len(confs), g)
     # ---- G1 cases ----
-    cap = 150 if c.quick else 4000
+    cap = 110 if c.quick else 4000
     cases, exhaustive, g1_total = [], True, 0
     for label in sorted(g1):
         docs = g1[label]
         g1_total += len(docs)
-        lcap = cap * 3 if label in ("fragdag", "mergeargs") else cap
+        lcap = (300 if c.quick else cap * 3) if label in ("fragdag", "mergeargs") else cap
         if len(docs) > lcap:
             docs = random.Random(c.seed * 7 + len(label)).sample(docs, lcap)
             exhaustive = False
         for i, s in enumerate(docs):
             doc = valgen.tree_from_sections(json.loads(s))
             name, supplied = valgen.supply(ts, doc, rng)
-            flavours = ("static", "dynamic") if i % 3 == 0 else (("static",) if i % 3 == 1 else ("dynamic",))
+            if c.quick:
+                flavours = ("static",) if i % 2 == 0 else ("dynamic",)
+            else:
+                flavours = ("static", "dynamic") if i % 3 == 0 else (("static",) if i % 3 == 1 else ("dynamic",))
             for fl in flavours:
                 cases.append({"id": 0, "src": "G1:" + label, "flavour": fl, "doc": doc, "opName": name, "vars": supplied})
     n_g1 = len(cases)
